@@ -488,7 +488,7 @@ def _decode_dir(img, im, vol, dnode, queue, tag):
         if prev is not None:
             if prev.ident > r.ident:
                 vol.prob('sort:unsorted', '%s: %r before %r' % (dnode.path, prev.ident, r.ident))
-            elif order_93(prev.ident, r.ident) > 0:
+            elif vol.kind != 'joliet' and order_93(prev.ident, r.ident) > 0:
                 vol.fields.setdefault('sort_93', []).append((dnode.path, prev.ident, r.ident))
         prev = r
         node = Node()
